@@ -72,6 +72,7 @@ def oracle(case, line):
     acct = {}     # list -> [budget, payload] while the root is limited
     starve = {}   # slave list with rate 0 under a limited root -> consecutive ticks with a node kept inactive
     flagged = set()
+    waitc = {}    # (list, node) waiting -> [updates allowed before it must be active, good updates survived]
     maxg = {}     # largest tick grant since the root limit was set
     ers = {}      # erases per list since the last tick (erase returns a node's quota to the pool)
     for i, part in enumerate(parts):
@@ -112,7 +113,7 @@ def oracle(case, line):
                 bad.append(("enabled-sync", "slave list %d enabled differs from root %s" % (li, where)))
         if valid:
             k = op[0]
-            if k in ("X", "V", "I", "E") and int(op[1]) < len(prev["lists"]):
+            if k in ("X", "V", "I", "E", "U") and int(op[1]) < len(prev["lists"]):
                 li = int(op[1])
                 P, L = prev["lists"][li], st["lists"][li]
                 if k == "X" and out.startswith("x="):
@@ -143,6 +144,32 @@ def oracle(case, line):
                         bad.append(("unlimited-not-woken", "limit removed but deactivated connection(s) %s of list %d were not activated: "
                                     "they stay held back with no limit in force %s" % (miss, li, where)))
                         break
+            # bounded wait of EVERY waiting connection (list_reactivation_liveness / every_waiter_served_within): a
+            # connection that had a others ahead of it in the waiting queue is active again before the (a+1)-th
+            # update that found min_chunk in the pool. Counters restart when chunk sizes change (set_max_rate).
+            if k == "R":
+                waitc.clear()
+            if k == "T" or (k == "R" and int(op[1]) == 0 and not prev["lists"][0]["e"] and st["lists"][0]["e"]):
+                for li, L in enumerate(st["lists"]):
+                    if li >= len(prev["lists"]):
+                        continue
+                    P = prev["lists"][li]
+                    ids_before = [kq[0] for kq in P["I"]]
+                    still = set(kq[0] for kq in L["I"])
+                    goodu = bool(P["I"]) and P["ua"] + P["uu"] >= P["mn"] and (L["A"], L["I"], L["ua"], L["uu"]) != (P["A"], P["I"], P["ua"], P["uu"])
+                    for pos, nid in enumerate(ids_before):
+                        key = (li, nid)
+                        if key not in waitc:
+                            waitc[key] = [pos + 1, 0]
+                        if goodu and nid in still:
+                            waitc[key][1] += 1
+                            if waitc[key][1] >= waitc[key][0] and "starve-w" not in flagged:
+                                flagged.add("starve-w")
+                                bad.append(("waiter-starved", "connection %d of list %d had %d connection(s) ahead of it in the waiting queue and is "
+                                            "still waiting after %d updates that found min_chunk in the pool %s" % (
+                                                nid, li, waitc[key][0] - 1, waitc[key][1], where)))
+            for key in [kk for kk in waitc if kk[0] < len(st["lists"]) and kk[1] not in set(q[0] for q in st["lists"][kk[0]]["I"])]:
+                del waitc[key]
             grant = None
             if k == "T":
                 grant = (st["now"] - prev["lt"]) * prev["rate"] // 10**6
